@@ -36,6 +36,11 @@ CLAIMS = {
   'text': 'Contracts of the real rculfqueue code: enqueue on a quiescent queue of unbounded length; dequeue on every quiescent shape (footprint argument: the rest of the chain and the tail are unconstrained pointers): oldest real node, NULL iff none, dummy never returned, dummies retired only through queue_call_rcu (exactly once, with free_dummy_cb), never free()d on the dequeue path, fresh dummy appended before the last node leaves; destroy succeeds iff empty and frees exactly the dummy. Apart (bounded): dequeue racing with a concurrent enqueuer loses, duplicates and reorders nothing.',
   'note': 'Assumed: sequential primitives, CBMC malloc/free model. Bounded part: <= 2 real nodes, 1 concurrent enqueue, loops unwound 4x. Not decided: linearizability over all schedules; no-ABA through grace periods (C01).',
  },
+ 'C18': {
+  'category': 'proof',
+  'text': 'Proved for the six real RCU list/hlist update primitives on symbolic neighbourhoods: exactly one store to the reader-visible next field, through a primitive (release for publications), the new node fully linked before that store, a removed/replaced node\'s next left intact, sequential doubly-linked result. Apart (bounded): all five reader macros traverse lists of <= 3 entries while an updater runs up to two real primitives between any two reader loads: termination, only real entries, list order, none twice, entries present throughout exactly once, initialised contents.',
+  'note': 'Assumed: sequential meaning of primitives; updater primitives atomic w.r.t. the reader (justified by the one-visible-store obligations). Not decided: freed-after-grace-period safety (C01); unbounded list length under concurrency.',
+ },
 }
 for i in range(1, 21):
     k = 'C%02d' % i
